@@ -36,13 +36,13 @@ import (
 //           the real net.InterfaceByName returns for the same name
 //   case: nsi isOp opRoute netIPNet msgNoSuch          impl: 0|1   (isNoSuchInterface, synthetic)
 
-type ciAddr struct {
+type vfCiAddr struct {
 	isIPNet bool
 	ip      []byte // nil, 4, 16 or another number of bytes
 	alt     int    // which non-IPNet type
 }
 
-func (a ciAddr) build() net.Addr {
+func (a vfCiAddr) build() net.Addr {
 	if a.isIPNet {
 		bits := 8 * len(a.ip)
 		if bits == 0 {
@@ -60,7 +60,7 @@ func (a ciAddr) build() net.Addr {
 	return &net.UDPAddr{IP: net.IP(a.ip), Port: 547}
 }
 
-func (a ciAddr) toks(t *vfh.Toks) {
+func (a vfCiAddr) toks(t *vfh.Toks) {
 	t.B(a.isIPNet)
 	switch len(a.ip) {
 	case 4:
@@ -72,33 +72,33 @@ func (a ciAddr) toks(t *vfh.Toks) {
 	}
 }
 
-func ip16(s string) []byte { return []byte(net.ParseIP(s).To16()) }
-func ip4(s string) []byte  { return []byte(net.ParseIP(s).To4()) }
+func vfIp16(s string) []byte { return []byte(net.ParseIP(s).To16()) }
+func vfIp4(s string) []byte  { return []byte(net.ParseIP(s).To4()) }
 
 // ciPool: every kind of entry an address list can hold.
-func ciPool() []ciAddr {
-	return []ciAddr{
-		{true, ip16("fe80::1"), 0},                       // IPv6 link-local
-		{true, ip16("febf:ffff::1"), 0},                  // last address block of fe80::/10
-		{true, ip16("fec0::1"), 0},                       // just outside (site-local)
-		{true, ip16("fe7f:ffff::1"), 0},                  // just below
-		{true, ip16("2001:db8::1"), 0},                   // global
-		{true, ip16("fd00::1"), 0},                       // unique local
-		{true, ip16("::1"), 0},                           // loopback
-		{true, ip16("ff02::1"), 0},                       // multicast
-		{true, ip4("192.0.2.1"), 0},                      // IPv4, 4 bytes
-		{true, ip16("192.0.2.1"), 0},                     // IPv4 as package net holds it (16 bytes)
-		{true, ip4("169.254.7.9"), 0},                    // IPv4 link-local, 4 bytes
-		{true, ip16("169.254.7.9"), 0},                   // IPv4 link-local as package net holds it
+func vfCiPool() []vfCiAddr {
+	return []vfCiAddr{
+		{true, vfIp16("fe80::1"), 0},                       // IPv6 link-local
+		{true, vfIp16("febf:ffff::1"), 0},                  // last address block of fe80::/10
+		{true, vfIp16("fec0::1"), 0},                       // just outside (site-local)
+		{true, vfIp16("fe7f:ffff::1"), 0},                  // just below
+		{true, vfIp16("2001:db8::1"), 0},                   // global
+		{true, vfIp16("fd00::1"), 0},                       // unique local
+		{true, vfIp16("::1"), 0},                           // loopback
+		{true, vfIp16("ff02::1"), 0},                       // multicast
+		{true, vfIp4("192.0.2.1"), 0},                      // IPv4, 4 bytes
+		{true, vfIp16("192.0.2.1"), 0},                     // IPv4 as package net holds it (16 bytes)
+		{true, vfIp4("169.254.7.9"), 0},                    // IPv4 link-local, 4 bytes
+		{true, vfIp16("169.254.7.9"), 0},                   // IPv4 link-local as package net holds it
 		{true, nil, 0},                                   // *net.IPNet without an address
 		{true, []byte{0xfe, 0x80, 0, 0, 0, 1}, 0},        // neither 4 nor 16 bytes
-		{false, ip16("fe80::1"), 0},                      // link-local, but a *net.IPAddr
-		{false, ip16("fe80::2"), 1},                      // link-local, but a *net.UDPAddr
-		{false, ip4("10.0.0.1"), 0},                      // *net.IPAddr IPv4
+		{false, vfIp16("fe80::1"), 0},                      // link-local, but a *net.IPAddr
+		{false, vfIp16("fe80::2"), 1},                      // link-local, but a *net.UDPAddr
+		{false, vfIp4("10.0.0.1"), 0},                      // *net.IPAddr IPv4
 	}
 }
 
-func ciRun(out *vfh.Out, up bool, akind, k int, as []ciAddr) {
+func vfCiRun(out *vfh.Out, up bool, akind, k int, as []vfCiAddr) {
 	c := new(vfh.Toks).S("ci").B(up).N(akind)
 	var addrs []net.Addr
 	var inject error
@@ -110,7 +110,7 @@ func ciRun(out *vfh.Out, up bool, akind, k int, as []ciAddr) {
 		}
 	} else {
 		c.N(0)
-		inject = vDialErr(akind+1, k, "addrs") // vdSyscall, vdPermission, vdOther
+		inject = vfVDialErr(akind+1, k, "addrs") // vdSyscall, vdPermission, vdOther
 	}
 	flags := net.FlagBroadcast | net.FlagMulticast
 	if k%3 == 0 {
@@ -141,13 +141,13 @@ func ciRun(out *vfh.Out, up bool, akind, k int, as []ciAddr) {
 			return addrs, nil
 		})
 		wraps := inject != nil && err != nil && errors.Is(err, inject)
-		return new(vfh.Toks).I(vClass(err)).B(wraps).B(called).String()
+		return new(vfh.Toks).I(vfVClass(err)).B(wraps).B(called).String()
 	}()
 	out.Line(c.String(), impl)
 }
 
 // liFeatures: what isNoSuchInterface looks at, read off an error.
-func liFeatures(err error) (isOp, opRoute, netIPNet, msg bool) {
+func vfLiFeatures(err error) (isOp, opRoute, netIPNet, msg bool) {
 	var oerr *net.OpError
 	if !errors.As(err, &oerr) {
 		return false, false, false, false
@@ -157,26 +157,26 @@ func liFeatures(err error) (isOp, opRoute, netIPNet, msg bool) {
 }
 
 func verifCheckInterface(t *testing.T, r *vfh.Rand, out *vfh.Out) {
-	pool := ciPool()
+	pool := vfCiPool()
 	k := 0
 	// down and up, empty list, every single entry, every ordered pair, every failure kind
 	for _, up := range []bool{false, true} {
-		ciRun(out, up, 0, k, nil)
+		vfCiRun(out, up, 0, k, nil)
 		k++
 		for a := range pool {
-			ciRun(out, up, 0, k, []ciAddr{pool[a]})
+			vfCiRun(out, up, 0, k, []vfCiAddr{pool[a]})
 			k++
 		}
 		for akind := 1; akind <= 3; akind++ {
 			for j := 0; j < 6; j++ {
-				ciRun(out, up, akind, k, nil)
+				vfCiRun(out, up, akind, k, nil)
 				k++
 			}
 		}
 	}
 	for a := range pool {
 		for b := range pool {
-			ciRun(out, true, 0, k, []ciAddr{pool[a], pool[b]})
+			vfCiRun(out, true, 0, k, []vfCiAddr{pool[a], pool[b]})
 			k++
 		}
 	}
@@ -184,7 +184,7 @@ func verifCheckInterface(t *testing.T, r *vfh.Rand, out *vfh.Out) {
 		for a := range pool {
 			for b := range pool {
 				for c := range pool {
-					ciRun(out, true, 0, k, []ciAddr{pool[a], pool[b], pool[c]})
+					vfCiRun(out, true, 0, k, []vfCiAddr{pool[a], pool[b], pool[c]})
 					k++
 				}
 			}
@@ -194,7 +194,7 @@ func verifCheckInterface(t *testing.T, r *vfh.Rand, out *vfh.Out) {
 	n := vfh.N(4000, 200000)
 	for i := 0; i < n; i++ {
 		ln := r.Intn(7)
-		as := make([]ciAddr, ln)
+		as := make([]vfCiAddr, ln)
 		for j := range as {
 			as[j] = vfh.Pick(r, pool)
 			if r.Chance(1, 5) {
@@ -210,14 +210,14 @@ func verifCheckInterface(t *testing.T, r *vfh.Rand, out *vfh.Out) {
 						b[12], b[13] = 169, 254
 					}
 				}
-				as[j] = ciAddr{isIPNet: !r.Chance(1, 8), ip: b, alt: r.Intn(2)}
+				as[j] = vfCiAddr{isIPNet: !r.Chance(1, 8), ip: b, alt: r.Intn(2)}
 			}
 		}
 		akind := 0
 		if r.Chance(1, 10) {
 			akind = 1 + r.Intn(3)
 		}
-		ciRun(out, !r.Chance(1, 6), akind, k, as)
+		vfCiRun(out, !r.Chance(1, 6), akind, k, as)
 		k++
 	}
 
@@ -230,13 +230,13 @@ func verifCheckInterface(t *testing.T, r *vfh.Rand, out *vfh.Out) {
 	}
 	for _, name := range names {
 		_, nerr := net.InterfaceByName(name)
-		isOp, opRoute, netIPNet, msg := liFeatures(nerr)
+		isOp, opRoute, netIPNet, msg := vfLiFeatures(nerr)
 		ifi, err := lookupInterface(name)
 		if (ifi == nil) != (err != nil) {
 			t.Fatalf("lookupInterface(%q) = %v, %v", name, ifi, err)
 		}
 		c := new(vfh.Toks).S("li").B(nerr != nil).B(isOp).B(opRoute).B(netIPNet).B(msg)
-		out.Line(c.String(), new(vfh.Toks).I(vClass(err)).String())
+		out.Line(c.String(), new(vfh.Toks).I(vfVClass(err)).String())
 	}
 	// isNoSuchInterface on synthetic errors: all 16 feature combinations, plain and wrapped
 	for m := 0; m < 16; m++ {
